@@ -192,6 +192,16 @@ def main(tier):
         if tier == "quick":
             mprogs = mprogs[:: 3]
         mcs = [(p, "", inp) for p in mprogs for inp in ([10, 20, 30], [], [4])]
+        # over (the one element that asks for an input by itself) on stacks of 0, 1, 2 entries, at top level and in calls
+        for p in ["Ȯ,?,", "5Ȯ,?,", "5 6Ȯ,?,", "Ȯ Ȯ,,?,", "5Ȯ Ȯ,,", "7λȮ,;†?,", "λȮ;†,?,", "3 4λ2|Ȯ,;†", "@f:1|Ȯ,;9@f;?,", "5Ȯ+,", "Ȯ?Ȯ,,,"]:
+            for inp in ([3, 4], [], [8]):
+                mcs.append((p, "", inp))
+        # inputs that are LISTS, read, passed to elements that build a changed list, and read again when the cursor
+        # wraps: the second delivery is the input as given (the run must not have changed the program's inputs)
+        for p in ["?0 9Ȧ,?,", "?:0 9Ȧ_,?,", "0 9Ȧ,?,", "?ÞḊ_?,", "?Ṙ,?,", "?s,?,", "λ0 9Ȧ;†,?,", "?1 7Ȧ,,", "?0 9Ȧ→a ?,←a,", "?ḣ__?,", "?U_?,",
+                  "?2 0Ȧ?2 1Ȧ,,?,"]:
+            for inp in ([[1, 2, 3]], [[3, 1, 2], 5], [[[1, 2], [3]]]):
+                mcs.append((p, "", inp))
         mobs, mv, _, mst = machine.validate(s, mcs)
     tally = {}
     for (inp, h), v, o in zip(cs, verdicts, obs):
